@@ -79,6 +79,15 @@ Definition chk_ext (c : string * string * option string * option (writer * strin
   | _, _ => false
   end.
 
+(* (path passed to save_results, extension argument, observed (writer, file written)) *)
+Definition chk_ext_p (c : string * option string * option (writer * string)) : bool :=
+  let '(fname, arg, o) := c in
+  match choose_writer_p fname arg, o with
+  | Ok (w, f), Some (w', f') => writer_eqb w w' && String.eqb f f'
+  | Err, None => true
+  | _, _ => false
+  end.
+
 Fixpoint mism_from {X} (chk : X -> bool) (k : nat) (l : list X) : list nat :=
   match l with
   | [] => []
